@@ -119,19 +119,27 @@ CHECKS = {
             'filterBodyPair (the documented rules as a truth table, symmetric in the two bodies), canCollide2, and soundness of the geometric '
             'filters over the reals: filterBox / filterSphereBox discard a pair only if every two points of the margin-inflated volumes are '
             'farther apart than the margin (so a pair within margin is never dropped), filterBox keeps only boxes that really touch within '
-            'margin, filterSphere discards iff centres are farther than the bound; all symmetric.',
-            'Trusted: VC generator, clang, z3/cvc5; geometric filters over the reals. Not covered: SAP broad phase, BVH mid phase, completeness '
-            'of the whole pair enumeration.',
-            'contracts (+ symmetry client lemmas), z3 QF_BV / LRA with quantified geometric soundness clauses'),
+            'margin, filterSphere discards iff centres are farther than the bound; all symmetric. The per-pair filter of the narrow phase, '
+            'filterCollisionPair (callees mj_filterSphere, getMargin, getGap, mju_sub3, mju_dot3 each under their own contract): a pair listed '
+            'explicitly is not generated twice, an explicit pair between two bodies that are not awake is dropped when sleeping is on, dynamic pairs '
+            'are dropped exactly on excluding contype/conaffinity masks (no user filter installed), explicit pairs ignore the masks, the bounding '
+            'test uses margin + gap of the right source, kept pairs pass every filter. Contact order: the merge / insertion / sift-down blocks of '
+            'the engine_sort.h macros (as in C22).',
+            'Trusted: VC generator, clang, z3/cvc5; geometric filters over the reals; user callback mjcb_contactfilter arbitrary and effect-free. '
+            'Not covered: SAP broad phase, BVH mid phase, completeness of the whole pair enumeration; the pass composition of mjSORT is a bounded stand-in.',
+            'contracts (+ symmetry client lemmas), z3 QF_BV / LIA / LRA / NRA with quantified geometric soundness clauses; bounded native stand-in (sort composition)'),
     'C16': ('DESIGN.md section 4 / C16',
             'Deductive proof of the selection logic of mj_ray (inductive loop invariant over all geoms, IEEE comparisons, per-geom distance a '
             'ghost function): the result is -1 with geomid -1 exactly when no non-eliminated geom is hit, otherwise it is the distance of the '
             'returned geom, that geom is hit and not eliminated, no hit geom is nearer, ties go to the lowest index, NaN distances are never '
             'selected; ray_quad returns the smallest non-negative real root or -1 iff none exists; ray_sphere hit points lie on the sphere; ray_plane hit '
             'points lie in the plane, inside the rendered rectangle, only for rays facing the front side, and an unbounded plane is always hit from above; '
-            'ray_eliminate applies the documented filter.',
+            'ray_eliminate applies the documented filter; ray_quad stores both roots and every real root is one of them; ray_capsule (normal == NULL): '
+            'the reported point lies on the capsule surface (side between the caps or the proper half of a cap sphere), per path; mju_rayGeom dispatches each '
+            'geom type to its own routine with the right arguments (plane / sphere / capsule clauses carried through, unknown types are an error).',
             'Trusted: VC generator, clang, z3/cvc5. Assumed: per-geom ray routines are pure functions of the geom index; ngeom < 2^27; '
-            'normal == NULL in mj_ray; quadratic/sphere over the reals. Not covered (listed): the other geom ray routines, mj_multiRay, BVH rays.',
+            'normal == NULL in mj_ray and ray_capsule; quadratic/sphere/plane/capsule over the reals. Not covered (listed): nearest / no-hit for the capsule, '
+            'the other geom ray routines, mj_multiRay, BVH rays.',
             'contracts + inductive loop invariant with ghost functions, z3 QF_FP/LIA+quantifiers, NRA'),
     'C31': ('DESIGN.md section 4 / C31',
             'Deductive proof on the real engine_io.c (all sizes, all buffer contents symbolic): (1) mj_validateReferences returning NULL '
@@ -155,9 +163,11 @@ CHECKS = {
             'classes united under the smaller root, everything else unchanged, error exactly for two static endpoints; mj_dsuAssign gives -1 '
             'to inactive trees, equal ids exactly to trees of one class, ids 0..count-1 ascending with the smallest tree of the class '
             '(ghost counting function with two induction lemmas), full path compression and the dof count; treeNext (generic scan of a Jacobian '
-            'row, dense and sparse): yields the tree of the first remaining entry whose tree differs from the previous one, -2 only when none is left.',
+            'row, dense and sparse): yields the tree of the first remaining entry whose tree differs from the previous one, -2 only when none is left; '
+            'treeIterInit: the direct incidence table (dof friction -> tree of the dof, joint limit -> tree of the joint\'s first dof, geom contact and '
+            'connect/weld -> the trees of both bodies, everything else -> generic scan from the start of the row).',
             'Trusted: VC generator, clang, z3/cvc5; induction schema for the two counting lemmas. Not under contract (listed): '
-            'unionConstraintTrees / treeIterInit (which rows are scanned, how their trees are merged), mj_island map construction, mj_floodFill. Bounded stand-in '
+            'unionConstraintTrees (which rows are scanned, how their trees are merged), mj_island map construction, mj_floodFill. Bounded stand-in '
             '(not counted): the compiled union-find vs brute-force connected components on all short merge sequences over small forests.',
             'contracts with ghost (logical) parameters + inductive loop invariants and variants, z3 LIA+arrays+quantifiers; bounded native stand-in'),
     'C34': ('DESIGN.md section 4 / C34',
@@ -236,10 +246,15 @@ CHECKS = {
             'tree\'s counter; mj_sleepTrees turns a list of distinct ready trees into one new cycle in list order, zeroes exactly their '
             'dof velocities/accelerations and touches no other tree; mj_sleepCycle terminates, returns -1 for bad / awake indices and a '
             'member of the cycle not above i otherwise; mj_updateSleepInit: tree_awake is the sign of tree_asleep, body states follow the '
-            'documented rule, the three index lists are strictly increasing, in range and contain only selected bodies / dofs.',
+            'documented rule, the three index lists are strictly increasing, in range and contain only selected bodies / dofs. Wake events: mj_wake '
+            '(flagged qpos change, any applied force / generalized force / velocity on the tree), mj_wakeCollision (geom contact with an awake tree or an '
+            'awake dof-less body), mj_wakeTendon (limited two-tree tendon), mj_wakeEquality (active connect / weld / joint equality) each leave the '
+            'sleeping tree awake and never put an awake tree to sleep - proved against a weak view of mj_wakeIsland / mj_sleepCycle that is itself '
+            'proved on the same bodies; treeCanSleep (exact form); the per-pair sleep filter of the collision driver (filterCollisionPair).',
             'Trusted: VC generator, clang, z3/cvc5. The debug-log blocks are compiled out with the repository switch '
-            'MJ_DISABLE_DEBUG_TRACING. Not decided (listed): bit-identical qpos of sleeping trees across steps, the wake policies, '
-            'completeness of the index lists, the minimum property of mj_sleepCycle (bounded stand-in only).',
+            'MJ_DISABLE_DEBUG_TRACING. Wake sweeps: derived flags current at entry (the proved postcondition of mj_updateSleepInit), normal returns only, '
+            'calls * ntree < 2^31, geom-geom contacts. Not decided (listed): bit-identical qpos of sleeping trees across steps, mj_sleep, '
+            'completeness of the index lists and the minimum property of mj_sleepCycle (bounded stand-in only).',
             'contracts with ghost parameters + inductive loop invariants and variants, z3 LIA+arrays+quantifiers; bounded native stand-in'),
 }
 
